@@ -59,11 +59,11 @@ def gen_cases(tier, seed):
                           'start': b * per + (seed % step),
                           'stop': min(n_pat, (b + 1) * per), 'step': step,
                           'seed': int(rng.integers(2 ** 31))})
-    n_rand = 16 if tier == 'quick' else 160
+    n_rand = 16 if tier == 'quick' else 640
     for i in range(n_rand):
         cases.append({'mode': 'random', 'n': 6 if tier == 'quick' else 12,
                       'seed': int(rng.integers(2 ** 31))})
-    n_e2e = 4 if tier == 'quick' else 50
+    n_e2e = 4 if tier == 'quick' else 200
     for i in range(n_e2e):
         c = mapcases.random_large_cases(rng, 1, max_leaves=10,
                                         max_cells=40)[0]
